@@ -139,6 +139,62 @@ def validates(x):
         return ('rejected', type(e).__name__)
 
 
+def xml_forms(p, member, is_list, cls, viol):
+    """The nested violation again, after a trip through XML text in forms an instance built through the API never has:
+    indented, the offending element behind a conforming equal-looking sibling, same-tag siblings separated by
+    another child.  Yields (form, reason or None)."""
+    import saml2_tophat
+    from xml.etree import ElementTree as ET
+
+    def build(members):
+        px = schema.base_instance(p, 1)
+        setattr(px, member, members if is_list else members[0])
+        return px
+
+    def reparse(tree):
+        return saml2_tophat.create_class_from_xml_string(p, ET.tostring(tree))
+    out = []
+    try:
+        cx = schema.base_instance(cls, 2)
+        viol(cx)
+        tree = ET.fromstring(build([cx]).to_string())
+        ET.indent(tree)
+        y = reparse(tree)
+        out.append(('indented', 'violation-accepted-when-nested' if (y is not None and validates(y)[0] == 'ok') else None))
+        if is_list:
+            good = schema.base_instance(cls, 2)
+            cx = schema.base_instance(cls, 2)
+            viol(cx)
+            px = build([good, cx])
+            out.append(('after-conforming-sibling', 'violation-accepted-when-nested' if validates(px)[0] == 'ok' else None))
+            # one level up: two sibling containers, the later one equal to the first plus one offending extra item
+            for g, gmember, g_list in parents_of(p):
+                if not g_list:
+                    continue
+                gx = schema.base_instance(g, 1)
+                setattr(gx, gmember, [build([schema.base_instance(cls, 2)])])
+                if validates(gx)[0] != 'ok':
+                    continue
+                setattr(gx, gmember, [build([schema.base_instance(cls, 2)]), build([schema.base_instance(cls, 2), cx])])
+                out.append(('extra-item-in-later-sibling-container:' + schema.cname(g),
+                            'violation-accepted-when-nested' if validates(gx)[0] == 'ok' else None))
+                break
+            tree = ET.fromstring(build([cx, good]).to_string())
+            tag = '{%s}%s' % (cls.c_namespace, cls.c_tag)
+            mine = [c for c in tree if c.tag == tag]
+            others = [c for c in tree if c.tag != tag]
+            if len(mine) == 2 and others:
+                for c in list(tree):
+                    tree.remove(c)
+                for c in [mine[0], others[0], mine[1]] + others[1:]:
+                    tree.append(c)
+                y = reparse(tree)
+                out.append(('siblings-interleaved', 'violation-accepted-when-nested' if (y is not None and validates(y)[0] == 'ok') else None))
+    except Exception:
+        pass
+    return out
+
+
 PARENTS = {}
 
 
@@ -232,6 +288,12 @@ def evaluate(names):
                     st, exc = validates(px)
                     if st == 'ok':
                         bad.append((desc + ['under', schema.cname(p)], 'violation-accepted-when-nested'))
+                    elif (p, member) == (ps[0][0], ps[0][1]) and desc[0] not in ('class-rule', 'class-bound'):
+                        # (class rules are about object states that need not survive serialisation)
+                        for form, why in xml_forms(p, member, is_list, cls, viol):
+                            n += 1
+                            if why:
+                                bad.append((desc + ['under', schema.cname(p), form], why))
                     if CFG['deep']:
                         # one level deeper: the parent itself nested under one of its own parents
                         for g, gmember, g_list in parents_of(p):
